@@ -214,6 +214,41 @@ theorem compile_const_in_image (pad : BitVec 8) (epi : Bytes) (pre post : List C
       have h1 : d.length ∣ L := Nat.dvd_trans hok.2.2.1 (Nat.dvd_of_mod_eq_zero hal)
       exact Nat.mod_eq_zero_of_dvd (Nat.dvd_add h1 hok.1)
 
+/-! ### the 32-bit `Node::_offset` and the `int32_t` displacement -/
+
+/-- while the pool stays within 4 GiB the truncation of the stored offsets changes nothing: every theorem above is a
+theorem about the C++ with its `uint32_t` field -/
+theorem add32_eq_add_below_4GiB (s : Pool) (hr : Reach s) (d : Bytes) (h : (add s d).1.size ≤ 2 ^ 32) :
+    add32 s d = add s d := by
+  obtain ⟨hist, hinv⟩ := reachable_inv s hr
+  have hinv' : ∃ h2, Inv (add s d).1 h2 := by
+    by_cases hv : validSize d.length = true
+    · obtain ⟨off, _, hi, _, _⟩ := add_inv s hist d hinv hv; exact ⟨_, hi⟩
+    · have hv' : validSize d.length = false := by simpa using hv
+      rw [add_invalid s d hv']; exact ⟨hist, hinv⟩
+  obtain ⟨h2, hi2⟩ := hinv'
+  unfold add32
+  have : wrapTree (add s d).1.tree = (add s d).1.tree := by
+    apply wrapTree_id
+    intro i n hn
+    have hok := hi2.tree.ok i n hn
+    have := hok.fit; have := Nat.two_pow_pos i; omega
+  simp only [this]
+
+/-- … and the first pool size at which it does: in a pool of exactly 4 GiB (the state below satisfies the invariant; a
+reachable one needs 2^26 distinct 64-byte constants) a new constant is placed at offset 2^32, but asking for it again
+returns 0 – the same constant, two offsets.  Not reachable in this sandbox (memory); listed as a limit, not a defect. -/
+theorem add32_dedup_breaks_at_4GiB_witness :
+    Inv { Pool.init with size := 2 ^ 32 } [] ∧
+    (add32 { Pool.init with size := 2 ^ 32 } [1#8]).2 = .ok (2 ^ 32) ∧
+    (add32 (add32 { Pool.init with size := 2 ^ 32 } [1#8]).1 [1#8]).2 = .ok 0 := by
+  refine ⟨?_, by decide, by decide⟩
+  refine ⟨⟨?_, ?_, ?_, ?_, ?_⟩, ⟨?_, ?_, ?_, ?_⟩, Or.inl rfl⟩ <;> simp [Pool.init, NS, getAt_nil]
+
+/-- `_new_const` stores `int32_t(off)` in the memory operand: exact below 2 GiB, negative from 2 GiB on -/
+theorem newConst_disp_int32 : (∀ n, n < 2 ^ 31 → int32 n = Int.ofNat n) ∧ int32 (2 ^ 31) = -(2 ^ 31 : Int) :=
+  ⟨int32_of_lt, by decide⟩
+
 /-! ### non-vacuity: the hypotheses are satisfiable and the monitor is not trivially true -/
 
 -- a history with dedup, a shared sub-constant, gap creation and gap reuse; the model's answers are the expected ones
